@@ -183,6 +183,9 @@ class Target:
         self.nblobs = int(spec.get("blobs", 0))
         self.cut = None if spec.get("cut") is None else [float(c) for c in spec["cut"]]
         self.dead_first = int(spec.get("dead_first", 0))
+        # rounding-noise twin: every finite log-likelihood value is perturbed by amp*h(x), h in [-1,1] a fixed hash of the point - what the rounding of
+        # (L + c) does to L when |c| >> |L| (amp = ulp(c)/2), without any shift
+        self.noise = spec.get("noise")
         self.corr = spec.get("corr")
         if self.corr is not None:
             self.cmu = np.array(self.corr["mu"], dtype=float)
@@ -242,6 +245,11 @@ class Target:
                 terms.append(t)
             m = max(terms)
             v = m + math.log(sum(math.exp(t - m) for t in terms)) if m > -math.inf else -math.inf
+        if self.noise and v > -math.inf:
+            import zlib
+
+            hsh = zlib.crc32(np.asarray(x, dtype=float).tobytes() + int(self.noise.get("seed", 0)).to_bytes(4, "little"))
+            v += float(self.noise["amp"]) * (hsh / 2147483648.0 - 1.0)
         return v + self.shift
 
     def blob_pure(self, x):
